@@ -24,6 +24,29 @@ def run(ctx):
         for _ in range(per):
             cid += 1
             jobs.append((cid, g.problem(), cname, False))
+    # temporal sub-corpus (durative actions, timed effects with nested conditions, timed goals) for the
+    # compilers whose supported kind includes temporal problems
+    from ..gen import TGen
+
+    tg = TGen(ctx.rng, conditional=True, disjunction=True, negation=True, quantifiers=True, forall_eff=False)
+    from ..gen import T
+    from ..upj import E
+
+    def temporal_problem():
+        P = tg.problem()
+        # half of them get a conditional TIMED effect whose condition nests a disjunction under a conjunction
+        if ctx.rng.random() < 0.6:
+            ef = tg.effect({})
+            if ef is not None and not ef["forall"]:
+                ef["c"] = E("and", [tg.atom({}, {}), E("or", [tg.atom({}, {}), E("not", [tg.atom({}, {})])])])
+                if not any(te["e"]["f"] == ef["f"] for te in P["timed_effects"]):
+                    P["timed_effects"].append({"t": T("gstart", ctx.rng.choice([1, 2, 3])), "e": ef})
+        return P
+
+    for cname in compobs.COMPILERS:
+        for _ in range(max(3, per // 3)):
+            cid += 1
+            jobs.append((cid, temporal_problem(), cname, False))
     # pipelines: ordered subsets (length 2-3) of the compilation kinds, on problems of the full grammar
     names = [c for c in compobs.COMPILERS if c not in ("tcrm",)]
     g = Gen(ctx.rng)
@@ -43,6 +66,10 @@ def run(ctx):
         r = byid[cid]
         comp = "pipeline" if r.get("pipeline") else r["comp"]
         sig = "%s|%s" % (comp, clause)
+        if clause == "undeclared-feature-DISJUNCTIVE_CONDITIONS" and comp == "dcrm" and r.get("Q"):
+            # known: Dnf treats a quantifier as an atom, so a connective under a quantifier of the input survives;
+            # anything else is reported with the places where the compiled problem still has a disjunction
+            sig += "|quantified-connective-in-input" if compobs.quantified_connective(r["P"]) else "|" + ",".join(compobs.disjunction_sites(r["Q"]))
         if clause.startswith("pipeline-"):
             sig = "pipeline|%s|%s" % (clause, r["detail"][:60].split(" cannot")[0])
         ctx.violation(sig, "C09 %s: %s %s" % (r["comp"], clause, r["detail"][:100]),
